@@ -30,3 +30,32 @@ PROPS["C17"] = {
     "trusted_base": ["rustc/cargo; harness hcore/c17 and its canonical printer"],
     "assumptions": ["usize/u64 = 64 bit; dev-profile overflow checks (an arithmetic overflow is the outcome `panic`)"],
 }
+
+PROPS["C18"] = {
+    "lean_modules": ["MithrilModel.Properties.C18"],
+    "theorems": [
+        "C18.C18_bounded", "C18.C18_fresh", "C18.C18_handout_fresh", "C18.C18_stale_not_readmitted",
+        "C18.C18_tag_race_counterexample", "C18.C18_item_giveback_counterexample_prefix", "C18.C18_item_giveback_fixed",
+    ],
+    "level_text": "Freshness and the bound are Lean invariants over every reachable state of an API-granular model of the pool, for any "
+                  "number of users and any pool size (induction over call sequences); the model is compared call by call with the real "
+                  "ResourcePool on exhaustive short schedules and random protocol-shaped ones, and freshness/bound are evaluated on the "
+                  "real pool's hand-outs. The residual tag race (acquire between set_discriminant and clear) is a proved counter-example "
+                  "and a listed known finding. Wake-up is only exercised by a real-thread test (partial).",
+    "level_note": "Trusted: Lean kernel, harness; atomicity of each public call with respect to the queue is read from the lock "
+                  "structure of resource_pool.rs (one critical section per call after the fix commits), not verified; Condvar/OS "
+                  "scheduling is outside the model.",
+    "harness": [("hcore", "c18")],
+    "anchors": ["internal/mithril-resource-pool/src/resource_pool.rs", "mithril-aggregator/src/services/prover.rs",
+                "mithril-aggregator/src/services/prover_legacy.rs"],
+    "rule": "case = (pool size, initial content, sequence of API calls by logical users: acquire, explicit give-back, drop, "
+            "set_discriminant, clear, give_back_resource(refill), reset) followed by a drain; exhaustive over an 11-letter alphabet to "
+            "depth 4 (quick) / 6 (thorough) for sizes 1-2, plus random schedules of 5-60 calls, half with adjacent and half with "
+            "split refreshes; every schedule is non-trivial; distinct = distinct request lines",
+    "trivial_tags": [],
+    "trusted_base": ["rustc/cargo; harness hcore/c18"],
+    "assumptions": ["each public call of ResourcePool is atomic w.r.t. the queue (lock structure as read)",
+                    "liveness of Condvar wake-ups is not modelled; exercised by one real-thread test per run"],
+    "goals_not_proved": ["C18_fresh_full_goal is FALSE on the current tree (C18_tag_race_counterexample): known finding C18-tag-race",
+                         "C18_wake (T2) not stated as a theorem"],
+}
